@@ -139,7 +139,18 @@ def _project(seed):
             elif style == 'class_scope':
                 c = fresh('Holder')
                 a = fresh('ci')
-                lines.append(f'class {c}:\n    from {src} import {obj} as {a}\n    class {fresh("Inner")}:\n        pass')
+                body = f'class {c}:\n    from {src} import {obj} as {a}\n    class {fresh("Inner")}:\n        pass'
+                if rnd.random() < 0.6:
+                    # the class body binds a name the module binds too (once per scope each), and aliases it by assignment:
+                    # the right-hand side is looked up in the class body first
+                    src2, _p2 = rnd.choice(earlier)
+                    kind2, obj2 = rnd.choice(defs[src2])
+                    sh = fresh('sh')
+                    if (src2, obj2) != (src, obj) and sh not in bound:
+                        lines.append(f'from {src2} import {obj2} as {sh}')
+                        bound.add(sh)
+                        body += f'\n    from {src} import {obj} as {sh}\n    {fresh("via")} = {sh}'
+                lines.append(body)
                 defs.setdefault(name, []).append(('class', c))
             elif style == 'alias_assign':
                 a = fresh('md')
@@ -161,6 +172,9 @@ def _project(seed):
                 f = fresh('f')
                 lines.append(f'def {f}(): pass')
                 mine.append(('func', f))
+        if rnd.random() < 0.4:
+            # a private definition: a star import of this module does not bind it
+            lines.append(f'class {fresh("_pv")}:\n    pass')
         defs.setdefault(name, []).extend(mine)
         texts[name] = '\n'.join(lines) + '\n'
     for name, is_pkg in order:
